@@ -204,6 +204,10 @@ func DumpCatalog(cat *lungo.Catalog, o DumpOpts) string {
 		}
 		ns := cat.Namespaces[h]
 		fmt.Fprintf(&sb, "ns %s docs=%d\n", h.String(), len(ns.Documents.List))
+		if strings.Contains(h[0], ".") || strings.Contains(h[1], ".") {
+			// "db.coll" is ambiguous when a name contains a dot
+			fmt.Fprintf(&sb, " (database %q collection %q)\n", h[0], h[1])
+		}
 		pos := map[bsonkit.Doc]int{}
 		for i, d := range ns.Documents.List {
 			pos[d] = i
